@@ -1523,9 +1523,25 @@ func c02RunAll(c *Ctx, cases []*c02Case) error {
 				stP.Tag("alpha=ok")
 			}
 		}
+		// (a') the two renamed outputs against each other: they went through the same restructuring, so they align even where
+		// the keep-output does not (an else block merged only when names are shortened); a binding that kept its original
+		// name captures differently under the two alphabets
+		if fail, structural, _, _, err := c02AlphaEq(cs.freq.out, cs.alpha.out); err == nil {
+			switch {
+			case structural != "":
+				stP.Tag("alpha2=unaligned")
+			case fail != "":
+				problems = append(problems, "default and useAlphabetVarNames outputs are not α-equivalent: "+fail)
+			default:
+				stP.Tag("alpha2=ok")
+			}
+		}
 		// (b) keep-output introduces no identifier
 		inIds, keepIds := c02Idents(cs.src), c02Idents(cs.keep.out)
 		for n := range keepIds {
+			if pjsKeyword(n) { // `while` is printed as `for`
+				continue
+			}
 			if _, ok := inIds[n]; !ok {
 				problems = append(problems, "KeepVarNames output contains the new identifier "+n)
 				break
